@@ -4,6 +4,8 @@ from props import runlib
 THEOREMS = ["RootSim.C01.history_stays_sorted", "RootSim.C01.forward_records_outputs", "RootSim.C01.matchStraggler_spec", "RootSim.C01.lp_state_is_fold",
             "RootSim.C05LP.run_exact", "RootSim.C05LP.rollback_exact"]
 
+THEOREMS_D = ['RootSim.PrefixUnique.prefix_unique', 'RootSim.PrefixUnique.prefix_unique_V2s', 'RootSim.PrefixUnique.history_unique', 'RootSim.PrefixUnique.exists_sequential_run', 'RootSim.PrefixUnique.v2_only_counterexample', 'RootSim.PrefixUnique.seq_state_exact']
+
 
 def run(ctx):
     ctx.trusted += ["sequentially consistent execution under the token scheduler (one worker runs between two hook points)",
@@ -13,6 +15,7 @@ def run(ctx):
     ctx.assumptions += ["valid-model contract V1-V5 (DESIGN 2.8); GenModel instances satisfy it by construction",
                         "runs that end in the known shutdown deadlock F1 (C08) are compared up to the hang"]
     runlib.lean_part(ctx, "RootSim.Props.C01Sorted", THEOREMS)
+    runlib.lean_part(ctx, "RootSim.Props.PrefixUnique", THEOREMS_D)
     agg = runlib.run_matrix(ctx, "par re-execution + final LP states vs Lean sequential executor",
                             40, 1200, oracle_keys=("s_rb_mismatch", "s_below_gvt", "s_double_free"),
                             threads=(1, 2, 3, 4, 6), ckpts=(1, 2, 3, 7, 0))
